@@ -267,6 +267,14 @@ def main(tier):
     rep.add_tlc("manager machine with read-only flags, all calls, depth %d: invariants and action properties" % (5 if thorough else 3), r)
     if r.violated:
         raise common.MachineryError("the specification itself violates %s\n%s" % (r.violated, "\n".join(common.tlc_counterexample(r.stdout, 60))))
+    # histories of any length: every state over the constants that satisfies the state invariants (reachable or not) takes every call once;
+    # the invariants hold again afterwards (they are inductive) and every action property holds for the step
+    ri = common.run_tlc("MC_USMInd", "MC_USMInd.cfg", bd, env={"EMIT": "0", "IND": "full" if thorough else "small"}, coverage=False, tag="inductive", timeout=6000)
+    rep.add_tlc("inductive check: every invariant-satisfying state of the manager (2 ids, 2 categories, %s units, templates, tracked objects, flags) x every call" % ("4" if thorough else "2"), ri)
+    if ri.violated:
+        raise common.MachineryError("the specification is not inductive: %s\n%s" % (ri.violated, "\n".join(common.tlc_counterexample(ri.stdout, 60))))
+    rep.cov["inductive_check"] = {"initial_states": "all states satisfying IdsUnique, CurrentRegistered, MapsOfRegistered over the constants", "distinct_states": ri.distinct,
+                                  "transitions": ri.generated if hasattr(ri, "generated") else None}
     sd = common.seed()
     if thorough:
         runs = [(4, "all", 1, 0), (5, "mut", 2, common.sample_seed()), (5, "all", 4, common.sample_seed(1)), (4, "ro", 1, 0)]
